@@ -4,7 +4,8 @@
          sorted(...) is CPython's stable sort -> `isort` (stable insertion sort, same input/output relation);
          str comparison is lexicographic on code points -> `lex_leb` on `list N`.
    (a) evaluation of a module DAG in a given processing order.
-   Models of: nodes.SymbolTable.write/serialize, types.write_type_map, the sorted(<set>) string lists
+   Models of: nodes.SymbolTable.write (the JSON format is canonicalised by util.json_dumps(sort_keys), same model;
+   SymbolTable.serialize itself iterates in insertion order), types.write_type_map, the sorted(<set>) string lists
    (future_import_flags, slots, immutable, required_keys, readonly_keys, scc.mod_ids, unused-ignore codes),
    build.transitive_dep_hash, State.patch_indirect_dependencies, build.order_ascc (uniform-priority case),
    build.sorted_components (`sorted_ready`), build.deps_to_json (NOT sorted), errors.Errors.sort_messages /
